@@ -90,7 +90,63 @@ def screen(m, meta):
     return {"reproduced": bool(problems), "input": "Pile(Text, Filler(UrwidImage(KittyImage))) drawn, then SolidFill drawn; clear_images in its four forms", "observed": problems}
 
 
-def overlay(m, meta):
+def noncomposite(m, meta):
+    """layouts with kitty and / or (on Konsole) iterm2 image widgets are drawn, then a top widget whose canvas is not composite
+    (SolidFill): everything that was shown has to be deleted in that redraw - iterm2 images on Konsole only go away with a
+    delete-all - and forgotten; then the scenarios of screen()"""
+    import tests
+    import urwid
+    from PIL import Image
+    import term_image.geometry as G
+    from term_image.image import KittyImage, ITerm2Image
+    from term_image.widget import UrwidImage, UrwidImageScreen
+    import term_image._ctlseqs as ctlseqs
+    tests.set_cell_size(G.Size(9, 18))
+    problems = []
+    saved = (KittyImage._supported, ITerm2Image._supported, getattr(ITerm2Image, "_TERM", None), getattr(KittyImage, "_TERM", None), getattr(KittyImage, "_KITTY_VERSION", None))
+    try:
+        for term, styles in (("konsole", ("iterm2",)), ("konsole", ("iterm2", "kitty")), ("konsole", ("kitty", "iterm2", "kitty")), ("konsole", ("kitty",)),
+                             ("kitty", ("kitty", "kitty"))):
+            tests.set_terminal_name_version(term, "22.12.3" if term == "konsole" else "0.30.0")
+            KittyImage._supported = True
+            KittyImage._TERM, KittyImage._KITTY_VERSION = ("kitty", (0, 30, 0)) if term == "kitty" else ("", ())
+            ITerm2Image._supported = term == "konsole"
+            ITerm2Image._TERM = term if term == "konsole" else ""
+            out = []
+            scr = UrwidImageScreen.__new__(UrwidImageScreen)
+            scr._ti_image_cviews = frozenset()
+            scr.write = out.append
+            scr.flush = lambda: None
+            widgets = [UrwidImage({"kitty": KittyImage, "iterm2": ITerm2Image}[st_](Image.new("RGB", (20, 20), (1, 2, 3)))) for st_ in styles]
+            scr._ti_screen_canv = urwid.Columns([urwid.Filler(w) for w in widgets]).render((12 * len(widgets), 8))
+            scr._ti_clear_images()
+            if not scr._ti_image_cviews:
+                problems.append({"terminal": term, "images": styles, "observed": "views not registered"})
+                continue
+            scr._ti_screen_canv = urwid.SolidFill("x").render((12 * len(widgets), 8))
+            n0 = len(out)
+            try:
+                scr._ti_clear_images()
+            except Exception as e:  # noqa: BLE001
+                problems.append({"terminal": term, "images": styles, "observed": f"{type(e).__name__}: {e}"})
+                continue
+            sent = "".join(out[n0:])
+            delete_all = ctlseqs.KITTY_DELETE_ALL in sent
+            zs = [w._ti_z_index for w in widgets if isinstance(w._ti_image, KittyImage)]
+            by_z = all((ctlseqs.KITTY_DELETE_Z_INDEX % z) in sent for z in zs)
+            enough = delete_all or ("iterm2" not in styles and by_z)
+            if not enough or scr._ti_image_cviews:
+                problems.append({"terminal": term, "images on screen before the non-composite redraw": styles, "delete-all written": delete_all,
+                                 "kitty z-indexes deleted": by_z, "views still on the books": len(scr._ti_image_cviews)})
+    finally:
+        KittyImage._supported, ITerm2Image._supported, ITerm2Image._TERM, KittyImage._TERM, KittyImage._KITTY_VERSION = saved
+        tests.set_terminal_name_version("kitty", "0.30.0")
+    if problems:
+        return {"reproduced": True, "input": "Columns of image widgets drawn, then SolidFill drawn", "observed": problems[:3]}
+    return screen(m, meta)
+
+
+def overlay(m, meta, scenarios=None):
     """the real UrwidImageScreen.draw_screen() with real urwid canvases: a pop-up moves over a kitty image (the image canvas is then
     split into several views); after every redraw the rows that carry a live kitty placement on the terminal must be exactly the
     rows of the canvas just drawn that contain the image"""
@@ -117,15 +173,19 @@ def overlay(m, meta):
         scr._started = True
         size = (40, 20)
         tok = re.compile(r"\x1b\[(\d*)(?:;(\d*))?([ABH])|\x1b_G([^\x1b;]*)[^\x1b]*\x1b\\|(\n)")
-        for moves in (((5, 0), (8, 0)), ((5, 0), (11, 0), (2, 0)), ((5, 15), (8, 15)), ((0, 0), (3, 0)), ((5, 30), (2, 30), (9, 30)), ((4, 0), (4, 10), (4, 30))):
+        for moves in scenarios or (((5, 0), (8, 0)), ((5, 0), (11, 0), (2, 0)), ((5, 15), (8, 15)), ((0, 0), (3, 0)), ((5, 30), (2, 30), (9, 30)), ((4, 0), (4, 10), (4, 30))):
             widget = UrwidImage(KittyImage(Image.new("RGB", (200, 200), (1, 2, 3))), upscale=True)
             scr._ti_screen_canv, scr._ti_image_cviews = None, frozenset()
             scr.screen_buf = None          # a fresh terminal screen for every scenario
             scr._screen_buf_canvas = None
             live, row = {}, 0
-            for top, left in moves:
-                pop = urwid.LineBox(urwid.SolidFill("p"))
-                canv = urwid.Overlay(pop, widget, ("fixed left", left), 10, ("fixed top", top), 4).render(size)
+            for move in moves:
+                if move is None:          # nothing over the image
+                    canv = urwid.Columns([widget]).render(size)
+                else:
+                    top, left, pw, ph = move if len(move) == 4 else move + (10, 4)
+                    pop = urwid.LineBox(urwid.SolidFill("p"))
+                    canv = urwid.Overlay(pop, widget, ("fixed left", left), pw, ("fixed top", top), ph).render(size)
                 n0 = len(chunks)
                 scr.draw_screen(size, canv)
                 data = "".join(chunks[n0:])
@@ -155,7 +215,7 @@ def overlay(m, meta):
                     if any(b"\x1b_Ga=T" in seg[2] for seg in crow):
                         want.add(y)
                 if set(live) != want:
-                    problems.append({"pop-up positions (top, left) drawn in turn": moves[:moves.index((top, left)) + 1],
+                    problems.append({"pop-up positions (top, left[, width, height]) drawn in turn": moves[:moves.index(move) + 1],
                                      "rows of the canvas with the image": sorted(want), "rows with a live placement on the terminal": sorted(live)})
                     break
             if problems:
@@ -166,6 +226,23 @@ def overlay(m, meta):
             os.close(a_)
             os.close(b_)
     return {"reproduced": bool(problems), "input": "a pop-up moved over a kitty image widget, real draw_screen()", "observed": problems[:2]}
+
+
+def narrowed_view(m, meta):
+    """panels that cover one side of a kitty image over its full height or width: the visible view keeps its corner and only gets
+    narrower / shorter (or wider / taller again), and the scenarios of overlay() after them"""
+    W, H = 40, 20
+    scen = []
+    for a, b in ((10, 15), (15, 10), (5, 20), (20, 5)):
+        scen.append((None, (0, W - a, a, H), (0, W - b, b, H), None))            # right-hand panel, full height: the view only changes width
+        scen.append((None, (H - a // 2, 0, W, a // 2), (H - b // 2, 0, W, b // 2), None))      # bottom panel, full width: only the height changes
+        scen.append((None, (0, 0, a, H), (0, 0, b, H), None))                    # left-hand panel
+        scen.append((None, (0, 0, W, a // 2), (0, 0, W, b // 2), None))          # top panel
+    scen.append(((0, 30, 10, 20), (5, 30, 10, 4), (0, 25, 15, 20)))
+    r = overlay(m, meta, scenarios=tuple(scen))
+    if r.get("reproduced"):
+        return r
+    return overlay(m, meta)
 
 
 def alloc(m, meta):
